@@ -40,6 +40,8 @@ struct shim_packed_cfg {
     void (*insert_sorted_bytes)(void *, size_t bytes, uint64_t);
     int (*del_member_bytes)(void *, size_t bytes, uint64_t);
     int max_elements; /* PACK_MAX_ELEMENTS of the instantiation, 0 if lengths are 32-bit */
+    void (*insert_bytes)(void *, size_t bytes, uint32_t off, uint64_t);
+    void (*del_bytes)(void *, size_t bytes, uint32_t off);
 };
 extern const struct shim_packed_cfg shim_packed_cfgs[];
 extern const int shim_packed_ncfgs;
